@@ -132,7 +132,7 @@ class HistogramWorld(World):
                     hs[-1] = hs[0]
                 return {"k": "aggregate", "hs": hs}
             if kk == "filter":
-                return {"k": "filter", "a": a, "pred": rng.choice(["even_parity", "first_one", "not_all_zero"])}
+                return {"k": "filter", "a": a, "pred": rng.choice(["even_parity", "first_one", "not_all_zero", "always", "always"])}
             return {"k": kk, "a": a, "b": b if rng.random() < 0.8 else a}
         if g == "inplace":
             m = len(next(iter(self.pool[a].model), ""))
@@ -301,7 +301,8 @@ class HistogramWorld(World):
             return V
 
         if k == "filter":
-            preds = {"even_parity": lambda b: b.count("1") % 2 == 0, "first_one": lambda b: b[:1] == "1", "not_all_zero": lambda b: "1" in b}
+            preds = {"even_parity": lambda b: b.count("1") % 2 == 0, "first_one": lambda b: b[:1] == "1", "not_all_zero": lambda b: "1" in b,
+                     "always": lambda b: True}
             f = preds[op["pred"]]
             try:
                 r = filter_hist(ea.h, f)
@@ -314,7 +315,13 @@ class HistogramWorld(World):
                 V.append(Violation("C18", "wrong-counts", k, {"got": dict(r.counts), "expected": exp}))
                 r.counts = dict(exp)
             self._check_pool(V, k)
-            self._push(r, exp)
+            # filter_hist is documented to return a *new* Histogram: the result gets its own pool entry even if the API handed
+            # back its input object, so that a later in-place operation on either of them exposes the aliasing
+            if r is ea.h:
+                ctx.probe("C18.filter_returned_its_input_object")
+            self.pool.append(Entry(r, exp))
+            if len(self.pool) > POOL_CAP:
+                self.pool.pop(0)
             return V
 
         if k == "remove":
